@@ -8,3 +8,15 @@ Inductive nl_kind := NlStrLiteral | NlByBufferType | NlUnknown.
 
 (* comparison operators as they appear in the source *)
 Inductive cmp := CLt | CLe | CGt | CGe | CEq | CNe | CUnknown.
+
+(* how an IO class writes one frame to its transport *)
+Inductive wshape :=
+| WFileWrite          (* one call of a buffered file object's write + flush (atomic: A-bufw) *)
+| WSendallLocked      (* sock.sendall inside `with <lock>` *)
+| WSendallUnlocked    (* bare sock.sendall: may interleave with another thread's sendall *)
+| WOther.
+Definition wshape_atomic (w : wshape) : bool :=
+  match w with WFileWrite | WSendallLocked => true | _ => false end.
+
+(* the frame header format of the execnet wire protocol: signed byte, two signed 32-bit ints, network order *)
+Definition HEADER_FMT : string := "!bii"%string.
